@@ -254,7 +254,7 @@ PROPS = {
             "http-types / url are third-party: Url::parse / Url::join are uninterpreted (parse_spec / join_spec: whatever RFC 3986 resolution the url crate implements), Request/ResponseAsync/HeaderValues are opaque values seen through assumed accessor contracts (url, as_mut, url_mut, clone = same URL/method/headers with an empty body, status, header(LOCATION), last().as_str())",
             "rule X17 (synchronous projection): async fn -> fn, .await erased; `client.send(r).await` inside a middleware is an assumed call that logs the request and yields any answer; `next.run(req, client).await` inside a middleware is an assumed call that logs the forwarded request (Next::run itself is proved separately)",
             "dyn Middleware::handle is user code: assumed only to have been called with the request and the rest of the chain it was given (logged)",
-            "the endpoint closure called once is one trip to the shell (its body, built in Client::send, is under contract separately)",
+            "the endpoint closure called once is one trip to the shell (its body, built in Client::send, is under contract separately); in Client::send's own body the two Vec::extend calls are assumed appends (rule X13.extend) and 'fewer than 2^31 middlewares' is a precondition (Vec::with_capacity(a + b))",
             "partial correctness: the redirect loop is bounded by `attempts` (proved: redirect_count <= attempts), termination of callees is not claimed",
         ],
         "not_decided": [
